@@ -358,6 +358,16 @@ fn rename_compu_method_refs(merge_module: &mut Module, rename_table: &HashMap<St
             typedef_measurement.conversion = newname.to_owned();
         }
     }
+
+    for instance in &mut merge_module.instance {
+        for overwrite in &mut instance.overwrite {
+            if let Some(conversion) = &mut overwrite.conversion {
+                if let Some(newname) = rename_table.get(&conversion.name) {
+                    conversion.name = newname.to_owned();
+                }
+            }
+        }
+    }
 }
 
 // ------------------------ RECORD_LAYOUT ------------------------
